@@ -52,8 +52,15 @@ META = {
 # ----------------------------------------------------------------------------------------
 # helpers
 # ----------------------------------------------------------------------------------------
-class Oracle(Exception):
-    """raised by a scripted driver body"""
+class CaseTimeout(BaseException):
+    """a single case ran into the wall-clock limit (BaseException: frappy swallows Exceptions raised in callbacks)"""
+
+
+CASE_LIMIT_S = 20
+
+
+def _on_alarm(signum, frame):
+    raise CaseTimeout()
 
 
 def _hwerror():
@@ -544,9 +551,12 @@ def gen_floatenum(rng, big):
 
     n = rng.randint(1, 30 if big else 12)
     ops = []
+    with_assign_float = rng.random() < 0.2      # the recorded finding: kept out of most histories
     for _ in range(n):
         via = rng.choice(['req', 'call'])
         r = rng.random()
+        if r >= 0.9 and not with_assign_float:
+            r = rng.random() * 0.9
         if r < 0.4:
             x = xval()
             while not dyadic and near_tie(x):
@@ -962,12 +972,40 @@ def signature(case, bad, trace):
     return 'C18:control:' + case['ops'][bad - 1][0]
 
 
-def judged_bad(ctx, case):
-    _, _, judge, _ = prepare(case)
+def linked_values(case, t):
+    """the linked parameter values of one record (what the property is about)"""
+    kind = case['kind']
+    if kind == 'struct':
+        return [t['struct'], t['mem']]
+    if kind == 'floatenum':
+        return [t['idx'], t['value']]
+    if kind == 'limits':
+        return [t['after'], t['value']]
+    return [t['cb'], t['act']]
+
+
+def new_bads(case, trace, bads):
+    """the rejected records that are not a mere carry-over: record i is a carry-over when record i-1 was rejected
+    too and operation i left all linked values as they were (reads, refused requests after an inconsistency)"""
+    res = []
+    for i in bads:
+        if i > 0 and (i - 1) in bads and linked_values(case, trace[i]) == linked_values(case, trace[i - 1]) \
+                and not (case['kind'] in ('floatenum', 'limits') and trace[i]['write'] is not None and trace[i]['ok']):
+            continue
+        res.append(i)
+    return res
+
+
+def judged_sigs(ctx, case):
+    """{signature: first index} of the rejected records of a case, run on the real code"""
+    trace, _, judge, _ = prepare(case)
     a = ctx.driver.batch([judge])[0]
     if 'driver_error' in a:
         raise RuntimeError(a['driver_error'])
-    return a['bad']
+    res = {}
+    for i in new_bads(case, trace, a['bads']):
+        res.setdefault(signature(case, i, trace), i)
+    return res, trace
 
 
 def nontrivial(case, trace):
@@ -986,6 +1024,7 @@ def nontrivial(case, trace):
     return len({json.dumps([t['cb'], t['act']]) for t in trace}) >= 3 and fails == 0
 
 
+SAMPLES_PER_KIND = {'struct': 2, 'floatenum': 1, 'limits': 1, 'control': 2}
 GENS = {'struct': gen_struct, 'floatenum': gen_floatenum, 'limits': gen_limits, 'control': gen_control}
 
 
@@ -1016,10 +1055,27 @@ def run(ctx):
     return res
 
 
+def prepare_limited(case):
+    """prepare(case) under a wall-clock limit: a hang is a harness problem (exit 2), never a verdict"""
+    import signal
+    import sys
+    old = signal.signal(signal.SIGALRM, _on_alarm)
+    signal.setitimer(signal.ITIMER_REAL, CASE_LIMIT_S)
+    try:
+        return prepare(case)
+    except CaseTimeout:
+        print(f'harness: case did not finish within {CASE_LIMIT_S} s (hang): {json.dumps(case)[:600]}')
+        sys.stdout.flush()
+        sys.exit(2)
+    finally:
+        signal.setitimer(signal.ITIMER_REAL, 0)
+        signal.signal(signal.SIGALRM, old)
+
+
 def _run_chunk(ctx, res, cases, offset, ncorpus, shrunk):
     reqs, prepared = [], []
     for case in cases:
-        trace, model, judge, canon = prepare(case)
+        trace, model, judge, canon = prepare_limited(case)
         prepared.append((case, trace, canon))
         reqs.append(model)
         reqs.append(judge)
@@ -1043,7 +1099,7 @@ def _run_chunk(ctx, res, cases, offset, ncorpus, shrunk):
         if nontrivial(case, trace):
             res.nontriv(case)
         if len(res.samples) < 6 and j >= ncorpus and len(case['ops']) <= 5 and nontrivial(case, trace) \
-                and sum(1 for s in res.samples if s['kind'] == kind) < 2:
+                and sum(1 for s in res.samples if s['kind'] == kind) < SAMPLES_PER_KIND[kind]:
             res.samples.append({'kind': kind, 'case': case, 'observed': impl_obs(case, canon)})
         if ctx.model_ok:
             mo, io = model_obs(case, model), impl_obs(case, canon)
@@ -1051,22 +1107,22 @@ def _run_chunk(ctx, res, cases, offset, ncorpus, shrunk):
             if d is not None and len(res.disagreements) < 20:
                 res.disagreements.append({'case': case, 'at': d, 'model': mo[d] if d < len(mo) else None,
                                           'impl': io[d] if d < len(io) else None})
-        bad = judge['bad']
-        if bad is not None:
+        for bad in new_bads(case, trace, judge['bads']):
             sig = signature(case, bad, trace)
+            if sig in {v['sig'] for v in res.violations if v['case'] is case}:
+                continue
             if shrunk.get(sig, 0) < 2:
                 shrunk[sig] = shrunk.get(sig, 0) + 1
-                small_ops = case['ops']
-                if bad > 0:
-                    def fails(ops, case=case):
-                        return judged_bad(ctx, dict(case, ops=ops)) is not None
-                    small_ops = ddmin(case['ops'][:bad], fails, max_tests=60) if bad > 1 else case['ops'][:bad]
-                small = dict(case, ops=small_ops)
-                strace = prepare(small)[0]
-                sbad = judged_bad(ctx, small)
-                if sbad is None:       # the shrinker must never lose the failure
+                small = dict(case, ops=case['ops'][:bad])
+                if bad > 1:
+                    def fails(ops, case=case, sig=sig):
+                        return sig in judged_sigs(ctx, dict(case, ops=ops))[0]
+                    small = dict(case, ops=ddmin(case['ops'][:bad], fails, max_tests=60))
+                sigs, strace = judged_sigs(ctx, small)
+                if sig not in sigs:       # the shrinker must never lose the failure
                     small, strace, sbad = case, trace, bad
-                sig = signature(small, sbad, strace)
+                else:
+                    sbad = sigs[sig]
                 what = f'{kind}: after {json.dumps(small["ops"][:sbad])} the recorded values are ' \
                        f'{json.dumps({k: v for k, v in strace[sbad].items() if k != "evs"})}'
                 res.violations.append({'sig': sig, 'what': what, 'case': small,
@@ -1087,4 +1143,7 @@ def replay(ctx, rp):
         print('       impl  :', json.dumps(io[i]))
         print('       model :', json.dumps(mo[i]) if isinstance(mo, list) and i < len(mo) else mo)
     print('judge :', a[1])
-    return 0 if a[1].get('bad') is None else 1
+    bads = new_bads(case, trace, a[1].get('bads', []))
+    for i in bads:
+        print(f'rejected record [{i}]:', signature(case, i, trace))
+    return 0 if not bads else 1
